@@ -61,7 +61,7 @@ def route(case):
         return "dhcp"
     if op in ("pool", "resolved", "resolve4"):
         return "local"
-    if op == "resp6":
+    if op in ("resp6", "solicit6"):
         return "local6"
     return "relay"
 
@@ -802,6 +802,82 @@ def gen_resolve4(rng, n):
     return cases
 
 
+V6ADDR = [("2001:db8::53", bytes.fromhex("20010db8") + bytes(11) + b"\x53"), ("2001:db8:1::1", bytes.fromhex("20010db80001") + bytes(9) + b"\x01"),
+          ("fd00::1", bytes.fromhex("fd00") + bytes(13) + b"\x01"), ("::ffff:10.0.0.9", bytes(10) + b"\xff\xff" + bytes([10, 0, 0, 9])),
+          ("10.0.0.1", bytes(10) + b"\xff\xff" + bytes([10, 0, 0, 1]))]
+CIDR6 = [("2001:db8::/64", bytes.fromhex("20010db8") + bytes(12), b"\xff" * 8 + bytes(8)),
+         ("2001:db8::/32", bytes.fromhex("20010db8") + bytes(12), b"\xff" * 4 + bytes(12)),
+         ("2001:db8:1::/48", bytes.fromhex("20010db80001") + bytes(10), b"\xff" * 6 + bytes(10)),
+         ("fd00::/8", bytes.fromhex("fd") + bytes(15), b"\xff" + bytes(15)), ("::/0", bytes(16), bytes(16)),
+         ("10.0.0.0/8", bytes([10, 0, 0, 0]), bytes([255, 0, 0, 0])), ("nope", None, None), ("", None, None)]
+
+
+def gen_solicit6(rng, n):
+    """pkg/dhcp.ResolveV6 + plugins/dhcp6/local HandlePacket (SOLICIT / REQUEST with a resolved lease): profile + AAA context + the
+    client's message -> ADVERTISE / REPLY"""
+    cases = []
+    lt = [0, 0, 1, 5, 3600, 86400, (1 << 30) + 3, M32 - 1]
+    for _ in range(n):
+        duid = rb(rng, rng.choice([14, 10]))
+        copts = []
+        if rng.random() < 0.93:
+            copts.append(o6(1, duid))
+        if rng.random() < 0.8:
+            body = struct.pack(">I", u32(rng)) + bytes(8)
+            if rng.random() < 0.06:
+                body = body[:rng.choice([0, 4, 11])]
+            copts.append(o6(3, body + (o6(5, ip6b(rng) + bytes(8)) if rng.random() < 0.2 else b"")))
+        if rng.random() < 0.6:
+            copts.append(o6(25, struct.pack(">I", u32(rng)) + bytes(8)))
+        if rng.random() < 0.3:
+            copts.append(o6(6, b"\0\x17\0\x18"))
+        if rng.random() < 0.1:
+            copts.append(o6(14, b""))
+        rng.shuffle(copts)
+        cmsg = bytes([rng.choice([1, 1, 3])]) + rb(rng, 3) + b"".join(copts)
+        if rng.random() < 0.03:
+            cmsg = cmsg[:rng.choice([0, 3, 4, 9])]
+        addr = "nil" if rng.random() < 0.2 else hx(rng.choice([bytes.fromhex("20010db8") + bytes(8) + rb(rng, 4), bytes.fromhex("20010db80001") + rb(rng, 10),
+                                                               bytes.fromhex("fd00") + rb(rng, 14), rb(rng, 16)]))
+        pfx, ones = ("nil", 0) if rng.random() < 0.3 else (hx(rng.choice([bytes.fromhex("20010db8000100") + bytes([rng.randrange(256)]) + bytes(8),
+                                                                         bytes.fromhex("fd00aa") + bytes(13), rb(rng, 8) + bytes(8)])),
+                                                           rng.choice([48, 56, 60, 64, 128, 0, 129]))
+        cd = [] if rng.random() < 0.7 else [ip6tok2(rng, 0.1) for _ in range(rng.choice([1, 2]))]
+
+        def stok():
+            q = rng.random()
+            if q < 0.15:
+                return _s(rng.choice(BADSTR)) + "/nil"
+            s_, b = rng.choice(V6ADDR)
+            return _s(s_) + "/" + hx(b)
+        pdns = [stok() for _ in range(rng.choice([0, 1, 2]))]
+        ia = []
+        nia = rng.choice([0, 1, 1, 2])
+        for _ in range(nia):
+            cs, ci_, cm = rng.choice(CIDR6)
+            opts = []
+            for _ in range(rng.choice([0, 0, 1, 2])):
+                code = rng.choice([24, 31, 56, 17])
+                enc = rng.choice(["", "hex", "hex", "bogus"])
+                if enc == "hex":
+                    val, pay = rng.choice([("00:01:02", bytes([0, 1, 2])), ("cafe", bytes.fromhex("cafe")), ("abc", None), ("", b"")])
+                elif enc == "bogus":
+                    val, pay = "x", None
+                else:
+                    val = rng.choice(["example.org", ""])
+                    pay = val.encode()
+                opts.append("%d,%s,%s/%s" % (code, _s(enc), _s(val), "nil" if pay is None else hx(pay)))
+            ia += [_s(cs) + "/" + ("nil" if ci_ is None else hx(ci_) + ":" + hx(cm)), str(rng.choice(lt)), str(rng.choice(lt)), str(len(opts))] + opts
+        pd = []
+        npd = rng.choice([0, 1, 1, 2])
+        for _ in range(npd):
+            cs, ci_, cm = rng.choice(CIDR6)
+            pd += [_s(cs) + "/" + ("nil" if ci_ is None else hx(ci_) + ":" + hx(cm)), str(rng.choice(lt)), str(rng.choice(lt))]
+        cases.append(" ".join(["solicit6", hx(rb(rng, 14)), hx(cmsg), addr, pfx, str(ones), str(len(cd))] + cd +
+                              [str(rng.choice(lt)), str(rng.choice(lt)), str(len(pdns))] + pdns + [str(nia)] + ia + [str(npd)] + pd))
+    return cases
+
+
 def gen_resp6(rng, n):
     """plugins/dhcp6/local buildResponse: resolved address / prefix / DNS / raw options -> ADVERTISE / REPLY"""
     cases = []
@@ -878,6 +954,7 @@ def gen_cases(rng, tier, budget):
     cases += gen_pipeline4(rng, 360 * k)
     cases += gen_resp6(rng, 400 * k)
     cases += gen_resolve4(rng, 500 * k)
+    cases += gen_solicit6(rng, 500 * k)
     return cases
 
 
